@@ -1,2 +1,49 @@
--- driver stub for C18 (replaced when the model is built)
-def main : IO Unit := pure ()
+import PyramidModel.Prelude
+import PyramidModel.TopoSort
+/-! Driver for C18.
+in : {"first":n,"last":n,"defBefore":null|[…],"defAfter":null|[…],"ops":[[name, after|null, before|null],…],
+      "explicit":[…]}            (explicit = explicit tween list, may be empty)
+out: {"result":{"ok":[…]}|{"unsatBefore":[…]}|{"unsatAfter":[…]}|{"cyclic":[…]}, "names":[…],
+      "trace":[…]}              trace of the composed handler: n>=0 enter n, -(n+1) exit n, "core" = 1000000 -/
+open Pyr Pyr.Topo Lean
+
+def optList (j : Json) : Except String (Option (List Nat)) :=
+  match j with
+  | .null => pure none
+  | j => do let l : List Nat ← fromJson? j; pure (some l)
+
+def parseOp (j : Json) : Except String AddOp :=
+  match j with
+  | .arr #[n, a, b] => do
+    let name : Nat ← fromJson? n
+    pure { name := name, after := ← optList a, before := ← optList b }
+  | _ => throw "bad op"
+
+def evJson : Ev → Json
+  | .enter n => toJson (Int.ofNat n)
+  | .exit n => toJson (-(Int.ofNat n) - 1)
+  | .core => toJson (1000000 : Nat)
+
+def sortedArr (l : List Nat) : Json := toJson (l.toArray.qsort (· < ·))
+
+def main : IO Unit := jsonDriver fun j => do
+  let first : Nat ← getAs j "first"
+  let last : Nat ← getAs j "last"
+  let dB ← optList (← getField j "defBefore")
+  let dA ← optList (← getField j "defAfter")
+  let opsJ ← getField j "ops"
+  let ops ← match opsJ with
+    | .arr xs => xs.toList.mapM parseOp
+    | _ => throw "bad ops"
+  let explicit : List Nat ← getAs j "explicit"
+  let s0 : Sorter := { defBefore := dB, defAfter := dA, first := first, last := last }
+  let s := s0.addAll ops
+  let r := s.sorted
+  let (res, implicit) : Json × List Nat := match r with
+    | .ok ns => (Json.mkObj [("ok", toJson ns)], ns)
+    | .unsatBefore w => (Json.mkObj [("unsatBefore", sortedArr w)], [])
+    | .unsatAfter w => (Json.mkObj [("unsatAfter", sortedArr w)], [])
+    | .cyclic l => (Json.mkObj [("cyclic", sortedArr l)], [])
+  let trace := compose (tweensUse explicit implicit) [Ev.core]
+  return Json.mkObj [("result", res), ("names", toJson s.names),
+    ("trace", Json.arr (trace.map evJson).toArray)]
